@@ -4,16 +4,19 @@
 # check that used to catch the change no longer does.
 cd "$(dirname "$0")/.."
 only="$1"
+# SEED_REPO: where the patch is applied (default /repo); any other git worktree of /repo is used through OPSIM_REPO
+R=${SEED_REPO:-/repo}
+X=""; [ "$R" != "/repo" ] && X="OPSIM_REPO=$R"
 for d in seeded/*/; do
   id=$(basename $d)
   [ -n "$only" ] && [[ "$id" != $only* ]] && continue
   props=$(python3 -c "import json;print(' '.join(json.load(open('$d/meta.json'))['detected_by']))")
-  git -C /repo apply "$d/patch.diff" 2>/dev/null || { echo "$id PATCH-DOES-NOT-APPLY"; git -C /repo checkout -- . ; continue; }
+  git -C $R apply "$d/patch.diff" 2>/dev/null || { echo "$id PATCH-DOES-NOT-APPLY"; git -C $R checkout -- . ; continue; }
   line="$id"
   for p in $props; do
-    out=$(OPSIM_EVIDENCE_DIR=/tmp/seedeval-evidence ./check $p quick 2>&1); rc=$?
+    out=$(env $X OPSIM_EVIDENCE_DIR=/tmp/seedeval-evidence ./check $p quick 2>&1); rc=$?
     if [ $rc -eq 1 ]; then line="$line $p:caught"; elif [ $rc -eq 0 ]; then line="$line $p:REGRESSION"; else line="$line $p:exit$rc"; fi
   done
-  git -C /repo checkout -- .
+  git -C $R checkout -- .
   echo "$line"
 done
